@@ -105,7 +105,11 @@ Definition no_receiver_msg : string :=
   "Function must have a dependency 'receiver' as its first parameter. Pass `no_deps` to entrait to disable dependency injection.".
 
 Definition analyze_fn_deps (tg : trait_generics) (s : sig) (o : opts) : result (fn_deps * trait_generics) :=
-  if no_deps_value o then Ok (DNoDeps, deps_with_generics tg (s_gen s))
+  if no_deps_value o then
+    match p_items (s_inputs s) with
+    | ArgRecv _ _ _ _ :: _ => Err (EMsg "Function cannot have a self receiver")
+    | _ => Ok (DNoDeps, deps_with_generics tg (s_gen s))
+    end
   else match p_items (s_inputs s) with
        | [] => Err (EMsg no_receiver_msg)
        | ArgRecv _ _ _ _ :: _ => Err (EMsg "Function cannot have a self receiver")
